@@ -110,6 +110,7 @@ func vcyc(value, n int) int {
 //@   requires desc != nil
 //@   ensures result != ""
 //@   ensures desc.Fallback != "" ==> result == desc.Fallback
+//@   ensures desc.Fallback == "" ==> result == "decimal"
 
 // Counter Styles 3 §2 "generate a counter representation", step 4 (pad): the number of
 // pad symbols is the pad length minus the length of the initial representation, minus —
@@ -126,6 +127,14 @@ func vcyc(value, n int) int {
 //@   call alphabetic#1 assert system == "alphabetic" && arg0 == counter.Symbols && arg1 == counterValue
 //@   call numeric#1 assert system == "numeric" && arg0 == counter.Symbols && arg1 == counterValue
 //@   call additive#1 assert system == "additive" && arg0 == counter.AdditiveSymbols && arg1 == counterValue
+// §2: a value outside the ranges, or that the fixed / additive algorithm cannot represent, is rendered
+// by the style's own FALLBACK style (not by decimal): the three recursive calls, in source order
+//@   call renderValue#1 assert !found
+//@   call renderValue#2 assert system == "fixed" && !ok && arg1 == counterValue
+//@   call renderValue#3 assert system == "additive" && !ok && arg1 == counterValue
+//@   call resolveCounter#1 assert arg1 == ite(counter.Fallback != "", counter.Fallback, "decimal")
+//@   call resolveCounter#2 assert arg1 == ite(counter.Fallback != "", counter.Fallback, "decimal")
+//@   call resolveCounter#3 assert arg1 == ite(counter.Fallback != "", counter.Fallback, "decimal")
 // §2 step 2: the value is rendered by this style only if it lies in one of its ranges
 //@   loop 2 invariant found ==> exists(k, 0, len(counterRanges), counterRanges[k][0] <= counterValue && counterValue <= counterRanges[k][1])
 //@   loop 2 invariant !found ==> forall(k, 0, rangeindex + 1, !(counterRanges[k][0] <= counterValue && counterValue <= counterRanges[k][1]))
